@@ -2360,7 +2360,7 @@ class Slur(TimedObject):
         self.start_note = start_note
         self.end_note = end_note
         # maintain a list of attributes to update when cloning this instance
-        self._ref_attrs.extend(["start_note", "end_note"])
+        self._ref_attrs.extend(["_start_note", "_end_note"])
 
     @property
     def start_note(self):
@@ -2437,7 +2437,7 @@ class Tuplet(TimedObject):
         self.actual_type = actual_type
         self.normal_type = normal_type
         # maintain a list of attributes to update when cloning this instance
-        self._ref_attrs.extend(["start_note", "end_note"])
+        self._ref_attrs.extend(["_start_note", "_end_note"])
 
     @property
     def start_note(self):
